@@ -119,6 +119,16 @@ def fraction_inside(node, env, margin=0.02):
     return cnt / tot
 
 
+def nondeg_float(node, envs):
+    """radii and interval lengths stay positive at every environment (a negative radius is malformed input)"""
+    for env in envs:
+        if node.kind in ("circle", "sphere") and _pf(node.pfs[1], env)[0] < 0.1:
+            return False
+        if node.kind == "interval" and _pf(node.pfs[1], env)[0] - _pf(node.pfs[0], env)[0] < 0.1:
+            return False
+    return all(nondeg_float(k, envs) for k in node.kids)
+
+
 def certified(node, envs, need=0.05):
     """positive measure of every Boolean node (and its operands) at every parameter row"""
     if node.kind in ("union", "cut", "inter"):
@@ -145,6 +155,22 @@ def prows_of(case):
     return [{p: [Fr(x) for x in v] for p, v in r.items()} for r in case["prows"]]
 
 
+def gauss_mean(node, prows):
+    """a lattice point that is robustly inside the domain at every parameter row (else None)"""
+    import itertools
+    envs = [dict(r) for r in prows] or [{}]
+    box = bbox_float(node, envs[0])
+    var = node.vars()[0]
+    m = {1: 32, 2: 12, 3: 6}[len(box)]
+    best, bestv = None, 0.05
+    for idx in itertools.product(range(m), repeat=len(box)):
+        p = [round(lo + (hi - lo) * (i + 0.5) / m, 3) for (lo, hi), i in zip(box, idx)]
+        v = min(sd_float(node, {var: p}, e) for e in envs)
+        if v > bestv:
+            best, bestv = p, v
+    return best
+
+
 def cert_envs(node, prows, params):
     """environments at which positive measure is certified: the case's own parameter rows; for a product the
     second factor's variable ranges over its interval"""
@@ -163,7 +189,7 @@ def gen_expr(ctx, mode, params, prows):
     """returns a Node (validated for positive measure) or None"""
     rng = ctx.rng
     for _ in range(40):
-        g = Gen(rng, params=params)
+        g = Gen(rng, params=params, p_dep=0.7 if mode in ("prim", "primbdry") else 0.4)
         depth = rng.choice([2, 2, 3]) if ctx.quick else rng.choice([2, 3, 3, 4])
         if mode == "prim":
             var = rng.choice(["x", "x", "x", "y", "z"])
@@ -198,7 +224,12 @@ def gen_expr(ctx, mode, params, prows):
         else:
             raise ValueError(mode)
         try:
-            if certified(node.kids[0] if node.kind == "prod" else node, cert_envs(node, prows, params)):
+            envs = cert_envs(node, prows, params)
+            if not nondeg_float(node.kids[1] if node.kind == "prod" else node, [dict(r) for r in prows] or [{}]):
+                continue
+            if node.kind == "prod" and not nondeg_float(node.kids[0], envs):
+                continue
+            if certified(node.kids[0] if node.kind == "prod" else node, envs):
                 return node
         except ZeroDivisionError:
             continue
@@ -248,6 +279,11 @@ def make_case(ctx, idx):
         call["filter"] = [col, str(thr), rng.choice([0, 1])]
     if api == "smp.gauss":
         call["std"] = rng.choice([0.5, 1.0, 2.0])
+        mean = gauss_mean(node, prows[:k])
+        if mean is None:
+            call["api"] = api = "smp.uniform"
+        else:
+            call["mean"] = mean
     prows = prows[:k]
     return dict(id=idx, mode=mode, dom=node.describe(), params=params, prows=prows_json(prows), call=call,
                 seed=rng.randint(0, 2 ** 31 - 1))
@@ -394,8 +430,7 @@ def run_impl(case):
         elif api == "smp.grid.f":
             f = lambda: S.GridSampler(dom, n_points=n, filter_fn=make_filter(call["filter"], vars_[0])).sample_points(params)
         elif api == "smp.gauss":
-            box = bbox_float(node, {p: [Fr(1, 2)] for p in names + ["s"]})
-            mean = [(lo + hi) / 2 for lo, hi in box]
+            mean = call["mean"]
             f = lambda: S.GaussianSampler(dom, n_points=n, mean=mean, std=call["std"]).sample_points(params)
         elif api == "smp.lhs":
             f = lambda: S.LHSSampler(dom, n_points=n).sample_points(params)
@@ -468,6 +503,9 @@ def is_boundary(node):
 
 def classify_error(case, err):
     """known findings (keys in known_findings.d/C01.json) — narrow matchers"""
+    if (case["mode"] == "prod" and case["call"]["api"].endswith(".d") and case["prows"]
+            and "shape '[10, -1]' is invalid for input of size" in err):
+        return "product_density_constant_volume_factor"
     return None
 
 
